@@ -43,5 +43,5 @@ func Check(r *ev.Run, replay string) {
 	r.Set("max_nesting_depth", depth)
 	r.Set("model_values", int(st.Values))
 	r.Set("model_errors", int(st.Errors))
-	r.Set("rule", fmt.Sprintf("every combination of nesting depth 1..%d x owning level x (each enclosing function calls the next in place | returns it uncalled) x read/write x 11 invocation routes (direct, from a list, from a map by index and by attribute, as list.map callback, inside a try callback, through call(), spawn(), fn.spawn(), from Go with vm.Get+vm.Call, inside a nested callback); the escaped closure is invoked twice and a sibling closure over the same binding is read afterwards; plus the binding family F4c: every placement of up to %d operations (declare, assign, read, ++, +=, read into another name) on a name that is a local of the enclosing function over 7 slots of the inner function (two top-level slots, two nested blocks, a loop body, trailing slots), the enclosing function printing its own variable after each call; distinct = distinct model outcomes", depth, ops))
+	r.Set("rule", fmt.Sprintf("every combination of nesting depth 1..%d x owning level x (each enclosing function calls the next in place | returns it uncalled) x read/write x 11 invocation routes (direct, from a list, from a map by index and by attribute, as list.map callback, inside a try callback, through call(), spawn(), fn.spawn(), from Go with vm.Get+vm.Call, inside a nested callback); the escaped closure is invoked twice and a sibling closure over the same binding is read afterwards; plus the binding family F4c: every placement of up to %d operations (declare, assign, read, ++, +=, read into another name) on a name that is a local of the enclosing function over 7 slots of the inner function (two top-level slots, two nested blocks, a loop body, trailing slots), the enclosing function printing its own variable after each call; the event family: two worker closures of one maker that first do one of 14 things (nothing, call a sibling closure with other captured variables, have such a call fail under try - directly, in a callback of each, in a deferred call, three frames deep, in a spawned thread -, run a closure that updates the same variable and then fails) and then update their captured variables and build a nested closure over them, every ordered pair of events, two instances, small and large frames; distinct = distinct model outcomes", depth, ops))
 }
